@@ -29,6 +29,7 @@ void do_call(MockType& m, int fn, int a0, int a1, Obs& o, int& argcell, std::str
     case FN_U: { std::unique_ptr<Tracked> p(new Tracked(a0)); tracked = p.get(); o.value = m.u(std::move(p)); o.outcome = OC_RET_INT; break; }
     case FN_S: { strarg = std::to_string(a0); o.sval = m.s(strarg); o.outcome = OC_RET_STR; break; }
     case FN_K: { argcell = a0; const MockType& cm = m; const int& r = cm.k(argcell); o.refaddr = &r; o.outcome = OC_RET_REF; break; }  // value read later, only through an address we trust
+    case FN_Z: m.z(); o.outcome = OC_RET_VOID; break;
     default: break;
   }
 }
@@ -49,7 +50,7 @@ std::string ExecImpl::param_text(const MExp& e, int i, bool& negated) const {
   switch (m.kind) {
     case MK_ANY: return " matching _";
     case MK_TYPEDANY:
-      return std::string(" matching ANY(") + (k == 'i' ? "int" : k == 'r' ? "int&" : k == 'c' ? "const int&" : k == 's' ? "const std::string&" : "std::unique_ptr<sim::Tracked>") + ")";
+      return std::string(" matching ANY(") + (k == 'i' ? "int" : k == 'r' ? "int&" : k == 'c' ? "const int&" : k == 's' ? "std::string&" : "std::unique_ptr<sim::Tracked>") + ")";
     case MK_VAL: case MK_EQ: return " == " + v;
     case MK_NE: return " != " + v;
     case MK_LT: return " < " + v;
@@ -244,8 +245,16 @@ void ExecImpl::op_call(const Op& op) {
     if (mset.empty()) os << " none";
     return os.str();
   };
+  // a WITH clause on this function looks at a local that has been assigned to since: when the wrong expectation is chosen
+  // (or none), the time at which the clause saw the local is in question as well (C09)
+  bool snap_sensitive = false;
+  for (int pass = 0; pass < 2; ++pass) for (int id : (pass ? saturated : active)) {
+    const MExp& se = M.exps[static_cast<size_t>(id)];
+    if (se.mutated) for (int k = 0; k < se.sd().nwith; ++k) if (se.sd().w[k].kind == WK_NESNAP) snap_sensitive = true;
+  }
   auto kind_props = [&](const char* base) {
     std::string p = base;
+    if (snap_sensitive) p += ",C09";
     if (cat == FORBIDDEN) p += ",C07";
     if (cat == SEQ || (cat == ACCEPT && any_seq)) p += ",C05";
     if (cat == NOMATCH && !want.empty() && !want[0].sat_list.empty()) p += ",C03";
@@ -266,7 +275,8 @@ void ExecImpl::op_call(const Op& op) {
       auto it = wpre.find(kv.first);
       if (it == wpre.end()) { fail("C02,C08", "with_foreign", "a WITH clause of exp#" + std::to_string(kv.first) + " (not on this object/function) was evaluated during " + call_desc()); return; }
       const WPre& wp = it->second;
-      if (!wp.params_ok) { fail("C08", "with_after_param_reject", "WITH of " + describe_exp(kv.first) + " evaluated although a parameter matcher rejects the call"); return; }
+      // in a rejected call the evaluation may come from composing the report, which then blames the WITH instead of the parameter (C15)
+      if (!wp.params_ok) { fail(real_rejected ? "C08,C15" : "C08", "with_after_param_reject", "WITH of " + describe_exp(kv.first) + " evaluated although a parameter matcher rejects the call"); return; }
       int expect_k = 0;
       for (const ClauseEv* c : kv.second) {
         if (c->k != expect_k) { fail("C08", "with_order", "WITH clauses of " + describe_exp(kv.first) + " evaluated out of declaration order / past a failing clause (saw index " + std::to_string(c->k) + ", expected " + std::to_string(expect_k) + ")"); return; }
@@ -350,7 +360,7 @@ void ExecImpl::op_call(const Op& op) {
     for (auto& c : o.clauses) {
       if (c.kind == 'W') continue;
       if (c.inst != cand) {
-        fail("C02,C03,C08", "foreign_action", std::string("clause ") + c.kind + std::to_string(c.k) + " of exp#" + std::to_string(c.inst) + " ran, but the model says " + describe_exp(cand) + " handles the call; " + call_desc());
+        fail(snap_sensitive ? "C02,C03,C08,C09" : "C02,C03,C08", "foreign_action", std::string("clause ") + c.kind + std::to_string(c.k) + " of exp#" + std::to_string(c.inst) + " ran, but the model says " + describe_exp(cand) + " handles the call; " + call_desc());
         return;
       }
       if (j >= acts.size() || acts[j].kind != c.kind || acts[j].k != c.k) {
@@ -361,7 +371,7 @@ void ExecImpl::op_call(const Op& op) {
         fail("C08", "action_order", os.str());
         return;
       }
-      bool lr = c.kind == 'S' ? d.se_lr[c.k] : (d.rk == RK_LRVAL || d.rk == RK_LRSTR || d.rk == RK_REF_PARAM || d.rk == RK_REF_CELL || d.rk == RK_CREF_CELL);
+      bool lr = c.kind == 'S' ? d.se_lr[c.k] : (d.rk == RK_LRVAL || d.rk == RK_LRSTR || d.rk == RK_LRSTR_VAR || d.rk == RK_REF_PARAM || d.rk == RK_REF_CELL || d.rk == RK_CREF_CELL);
       long wantsnap = lr ? c.msnap : e.snap0;
       if (c.val != wantsnap) {
         fail("C09", "capture_time", std::string(lr ? "LR_ " : "plain ") + "clause " + c.kind + std::to_string(c.k) + " of " + describe_exp(cand) + " saw local = " + std::to_string(c.val) + ", expected " + std::to_string(wantsnap) + " (value at creation " + std::to_string(e.snap0) + ", when the clause ran " + std::to_string(c.msnap) + ")");
@@ -379,11 +389,15 @@ void ExecImpl::op_call(const Op& op) {
       for (auto& a : acts) os << ' ' << a.kind << a.k;
       os << "); outcome " << outcome_name(o.outcome) << "; " << call_desc();
       // when nothing of the handler ran but the value identifies another expectation, it is a selection problem
-      fail((j == 0 && o.outcome == OC_RET_INT && (o.value >> 3) != cand) ? "C02,C03,C08" : "C08", "action_missing", os.str());
+      fail((j == 0 && o.outcome == OC_RET_INT && (o.value >> 3) != cand) ? (snap_sensitive ? "C02,C03,C08,C09" : "C02,C03,C08") : "C08", "action_missing", os.str());
       return;
     }
   }
   if (o.tracked_copies != 0) { fail("C09", "no_copy", "a move-only argument's pointee was copied " + std::to_string(o.tracked_copies) + " times"); return; }
+  // reading an argument or a local in RETURN / LR_RETURN leaves the caller's object as it was (C09)
+  if (fn == FN_S && strarg != std::to_string(args[0])) { fail("C09", "argument_modified", "the caller's std::string argument is '" + strarg + "' after the call, it was '" + std::to_string(args[0]) + "'; handled by " + describe_exp(cand)); return; }
+  if (d.rk == RK_LRSTR_VAR && rexps[static_cast<size_t>(cand)].inst && rexps[static_cast<size_t>(cand)].inst->str != std::to_string(1000 + cand)) {
+    fail("C09", "local_modified", "the local named in LR_RETURN of " + describe_exp(cand) + " is '" + rexps[static_cast<size_t>(cand)].inst->str + "' after the call, it was '" + std::to_string(1000 + cand) + "'"); return; }
   // outcome
   {
     int wo = OC_NONE; long wv = 0; std::string ws; const void* wa = nullptr;
@@ -397,6 +411,8 @@ void ExecImpl::op_call(const Op& op) {
       case RK_LRVAL: wo = OC_RET_INT; wv = code_lr; break;
       case RK_STR: wo = OC_RET_STR; ws = std::to_string(code_plain); break;
       case RK_LRSTR: wo = OC_RET_STR; ws = std::to_string(code_lr); break;
+      case RK_STR_PARAM: wo = OC_RET_STR; ws = std::to_string(args[0]); break;     // a copy of the caller's argument
+      case RK_LRSTR_VAR: wo = OC_RET_STR; ws = std::to_string(1000 + cand); break;  // a copy of the local named in LR_RETURN
       case RK_REF_PARAM: wo = OC_RET_REF; wa = &argcell; break;
       case RK_REF_CELL: case RK_CREF_CELL: wo = OC_RET_REF; wa = rexps[static_cast<size_t>(cand)].cell.get(); break;
       case RK_CREF_PARAM: wo = OC_RET_REF; wa = &argcell; break;
